@@ -121,6 +121,7 @@ func (e *fakeEx) WithdrawReserved() {
 	if !e.begun && !e.fin {
 		e.fin = true
 		e.f.inuse--
+		e.f.r.rec.Log("Withdraw", "x", e.f.id)
 	}
 }
 
@@ -171,14 +172,19 @@ func (r *plRunner) seen(ev string, x, c int) bool {
 	return false
 }
 
-func (r *plRunner) startCall(c int) {
+func (r *plRunner) startCall(c int, precancel bool) {
 	ctx, cancel := context.WithCancel(context.Background())
 	cl := &call{id: c, ctx: ctx, cancel: cancel, done: make(chan struct{}), startAt: time.Now()}
 	r.cs.mu.Lock()
 	r.cs.m[c] = cl
 	r.cs.mu.Unlock()
 	r.rec.Log("Start", "c", c)
-	go func() {
+	if precancel { // the call enters the transport with a context that has already ended
+		r.rec.Log("Cancel", "c", c)
+		cl.cancelled = true
+		cancel()
+	}
+	go runCallN(c, func() {
 		defer func() {
 			if p := recover(); p != nil { // a panic of the code under test is a conformance failure
 				r.panicMu.Lock()
@@ -195,7 +201,16 @@ func (r *plRunner) startCall(c int) {
 		}
 		r.rec.Log("Return", "c", c, "res", classify(cl, err, transport.ErrClosedTransport), "vc", vc, "err", fmt.Sprint(err))
 		close(cl.done)
-	}()
+	})
+}
+
+func (r *plRunner) seenAny(ev string, c int) bool {
+	for _, e := range r.rec.Events() {
+		if e["ev"] == ev && e["c"] == c {
+			return true
+		}
+	}
+	return false
 }
 
 func (r *plRunner) startClose() {
@@ -231,11 +246,51 @@ func (r *plRunner) step(s Step) (bool, string) {
 	x, c := s.num("x"), s.num("c")
 	switch a {
 	case "Start":
-		r.startCall(c)
+		r.startCall(c, s.flag("precancel"))
+	case "Parked":
+		// Observation: call c does not return, does not cause the dial the script expects and does not start an
+		// exchange, AND its goroutine and every other goroutine of the code under test (including dial goroutines that
+		// were created but have not run yet) are blocked -- waiting for something, not for a CPU -- in two samples
+		// 100 ms apart: it is queued on a connection that is still dialing, and every dial that was spawned has
+		// reached the dial function.  Nothing is logged if it moves, or if its goroutine
+		// is merely runnable (then nothing has been observed).
+		cl := r.cs.get(c)
+		if cl == nil {
+			return false, "Parked: call was not started"
+		}
+		n0 := r.dialer.Count()
+		if d := s.num("dials"); d > 0 {
+			n0 = d - 1 // the script expects the call to cause dial number d (it may already have happened)
+		}
+		moved := func() bool {
+			select {
+			case <-cl.done:
+				return true
+			default:
+			}
+			return r.dialer.Count() > n0 || r.seenAny("ExchReq", c)
+		}
+		blocked := 0
+		end := time.Now().Add(3 * time.Second)
+		for !moved() && time.Now().Before(end) {
+			if blockedState(callState(c)) && codeQuiescent() {
+				blocked++
+			} else {
+				blocked = 0
+			}
+			if blocked >= 2 && !moved() {
+				r.rec.Log("Parked", "c", c)
+				break
+			}
+			time.Sleep(100 * time.Millisecond)
+		}
 	case "Cancel":
 		cl := r.cs.get(c)
 		if cl == nil {
 			return false, "cancel of a call that was not started"
+		}
+		if cl.cancelled {
+			return true, "" // (pre-cancelled at its start)
 		}
 		r.rec.Log("Cancel", "c", c)
 		cl.cancelled = true
@@ -267,14 +322,20 @@ func (r *plRunner) step(s Step) (bool, string) {
 		}
 		if s.flag("ok") {
 			f := &fakeConn{id: x, r: r, health: "ok", pend: map[*fakeEx]bool{}}
+			// r.mu is held across the completion so that no ReserveNewQuery can see the connection before a
+			// "dead on arrival" kill has been applied and logged
 			r.mu.Lock()
 			r.conns[x] = f
-			r.mu.Unlock()
 			if !op.Complete(f, nil) { // the dial ended through its context in the meantime: no such connection
-				r.mu.Lock()
 				delete(r.conns, x)
-				r.mu.Unlock()
+			} else if s.flag("dead") {
+				r.rec.Log("Kill", "x", x, "k", "dead")
+				f.health = "dead"
 			}
+			r.mu.Unlock()
+		} else if s.str("err") == "ctxwrap" {
+			// e.g. a stalled TLS handshake: the dialer's own deadline, wrapped
+			op.Complete(nil, fmt.Errorf("harness: tls handshake: %w", context.DeadlineExceeded))
 		} else {
 			op.Complete(nil, simnet.ErrRefused)
 		}
@@ -477,7 +538,7 @@ func runPipeline(idx int, sc Script) Result {
 	}
 	r.drain()
 	if len(res.Hang) == 0 && !sc.NoPostCall {
-		r.startCall(postCall)
+		r.startCall(postCall, false)
 		if !waitDone(r.cs.get(postCall).done, hangWait) {
 			res.Hang = append(res.Hang, "call after Close")
 		}
